@@ -2,6 +2,7 @@ package mon
 
 import (
 	"os"
+	"runtime/debug"
 	"syscall"
 )
 
@@ -40,3 +41,5 @@ func (g *Guard) Place(b []byte) []byte {
 	copy(g.mem[off:g.data], b)
 	return g.mem[off:g.data:g.data]
 }
+
+func setPanicOnFault() { debug.SetPanicOnFault(true) }
